@@ -56,7 +56,7 @@ def case_st(maxn):
             "n": length_st(maxn),
             "content": st.sampled_from(["pattern", "random", "text"]),
             "as_str": st.booleans(),
-            "reader": st.sampled_from(["drain", "slow", "slow1"]),
+            "reader": st.sampled_from(["drain", "slow", "slow1", "halfclose", "halfclose-slow"]),
             "seed": st.integers(0, 2**32),
             "meta": st.sampled_from(["text/gemini", "application/octet-stream", "text/plain; charset=utf-8", ""]),
             "tls": st.sampled_from(["1.3", "1.2"]),
@@ -90,17 +90,21 @@ def run_mem(case: dict):
             factory, sslctx = stacks.manual_stack(backend, handler)
             v = ssl.TLSVersion.TLSv1_3 if case["tls"] == "1.3" else ssl.TLSVersion.TLSv1_2
             cctx = memnet.permissive_client_ctx(minv=v, maxv=v)
-            slow = case["reader"] != "drain"
+            slow = case["reader"] not in ("drain", "halfclose")
             conn = memnet.ServerConn(loop, factory, sslctx, cctx, backlog_mode=False)
             if not await conn.handshake():
                 return conn, "handshake-failed"
             conn.tcp.backlog_mode = slow
             conn.client.to_send += b"gemini://localhost/x\r\n"
             conn.client.step()
+            if case["reader"].startswith("halfclose"):
+                # the client announces it will send nothing more (close_notify) right after the request, then reads
+                conn.client.close_notify()
+                conn.client_closed = True
             conn.tcp.feed(conn.client.take())
             await vloop.settle(5)
             if slow:
-                step = 1 if case["reader"] == "slow1" else 3
+                step = 1 if case["reader"] in ("slow1", "halfclose-slow") else 3
                 for _ in range(100000):
                     if not conn.tcp.backlog:
                         break
@@ -270,7 +274,8 @@ def run_live(case: dict):
     req = f"gemini://localhost/{case['n']}/{case['content']}/{case['seed']}/{'s' if as_str else 'b'}?{METAS.index(case['meta'])}\r\n".encode()
     streams = {}
     for backend in ("stdlib", "pyopenssl"):
-        r = livenet.tls_fetch(ports[backend], req, cctx, reader={"drain": "drain", "slow": "slow", "slow1": "bursty"}[case["reader"]])
+        r = livenet.tls_fetch(ports[backend], req, cctx, reader={"drain": "drain", "slow": "slow", "slow1": "bursty",
+                                                                 "halfclose": "drain", "halfclose-slow": "slow"}[case["reader"]])
         if not r["handshake_ok"]:
             return viol("handshake-failed", f"{backend}: {r['error']}", backend=backend)
         got = r["data"]
